@@ -84,12 +84,14 @@ def copy_tree(src, dst, order_seed=None):
         shutil.copyfile(os.path.join(src, p), os.path.join(dst, p))
 
 
-def run_generator(root, crash=None, aslr_off=False, pad_env=0, timeout=120):
+def run_generator(root, crash=None, aslr_off=False, pad_env=0, timeout=120, extra_env=None):
     """one execution of the real generator; returns (exit status, trace lines, output tail)"""
     trace = os.path.join(root, ".verif_trace")
     if os.path.exists(trace):
         os.remove(trace)
     env = {"PATH": os.environ.get("PATH", ""), "WOWM_VERIF_ROOT": root, "WOWM_VERIF_TRACE": trace, "HOME": os.environ.get("HOME", "/root")}
+    if extra_env:
+        env.update(extra_env)
     if crash:
         env["WOWM_VERIF_CRASH"] = crash
     if pad_env:
@@ -238,6 +240,13 @@ def gen_scenario(c, i, seed, tier):
         if rng.random() < 0.5:
             fe = {"kind": "foreign", "path": os.path.join(os.path.dirname(f["path"]), rng.choice(FOREIGN_NAMES))}
             faults.insert(rng.randrange(len(faults) + 1), fe)
+    # a configuration and the artefacts it concerns together: scenarios that set WOWM_WIRESHARK also get a fault in one of
+    # the Wireshark fragments kept in the repository
+    env_choice = rng.choice([None, None, None, "wireshark"])
+    if env_choice == "wireshark":
+        ws = [g for g in gen if "/wireshark/" in g]
+        if ws:
+            faults.append({"kind": rng.choice(["delete", "prefix", "stale_line", "empty"]), "path": rng.choice(ws), "arg": rng.randrange(1 << 30)})
     n_crash = 0 if not faults else rng.choice([0, 0, 1, 1, 1, 2, 3])
     crashes = []
     for _ in range(n_crash):
@@ -245,7 +254,7 @@ def gen_scenario(c, i, seed, tier):
         crashes.append({"pos": pos, "frac": rng.random(), "manner": rng.choice(CRASH_MANNERS), "k": rng.randrange(1, 4000)})
     return {"index": i, "label": "faults=%d crashes=%d" % (len(faults), len(crashes)), "order_seed": rng.randrange(1 << 30), "faults": faults, "crashes": crashes,
             "final_runs": rng.choice([1, 1, 2]), "aslr_off": rng.random() < 0.3, "pad_env": rng.choice([0, 0, 17, 4096, 12345]),
-            "root_via": rng.choice([None, None, None, None, "symlink", "dotdot"])}
+            "root_via": rng.choice([None, None, None, None, "symlink", "dotdot"]), "env": env_choice}
 
 
 def apply_fault(root, c, f):
@@ -391,7 +400,22 @@ def exec_scenario(c, sc, keep=False):
     elif via == "dotdot":
         run_root = os.path.join(root, "wow_message_parser", "..")
         cnt("config_root_via_dotdot")
-    st, ops, out = run_generator(run_root, aslr_off=sc.get("aslr_off", False), pad_env=sc.get("pad_env", 0))
+    # configuration dimension: environment variables the generator itself consults (WOWM_WIRESHARK: a Wireshark checkout
+    # whose dissector sources are patched IN ADDITION to the fragments kept in the repository)
+    extra_env = None
+    ws_dir = None
+    if sc.get("env") == "wireshark":
+        ws_dir = root + "-wireshark"
+        shutil.rmtree(ws_dir, ignore_errors=True)
+        os.makedirs(ws_dir)
+        skeleton = "".join("/* AUTOGENERATED_START_%s */\nstale\n/* AUTOGENERATED_END_%s */\n" % (m, m) for m in ["HF", "ENUM", "REGISTER", "VARIABLES", "PARSER"])
+        for fn in ["packet-wow.c", "packet-woww.c"]:
+            open(os.path.join(ws_dir, fn), "w").write("/* dissector */\n" + skeleton)
+        extra_env = {"WOWM_WIRESHARK": ws_dir}
+        cnt("config_env_WOWM_WIRESHARK")
+    st, ops, out = run_generator(run_root, aslr_off=sc.get("aslr_off", False), pad_env=sc.get("pad_env", 0), extra_env=extra_env)
+    if ws_dir:
+        shutil.rmtree(ws_dir, ignore_errors=True)
     if via == "symlink":
         os.remove(run_root)
     ops = [o.replace(run_root + os.sep, root + os.sep) for o in ops]
@@ -548,7 +572,7 @@ def check(tier):
             "property_id": "C08", "tier": tier, "seed": seed, "level": "fault_enumeration",
             "coverage": {
                 "evaluations": max(runs, 1), "distinct_nontrivial": max(len(logs), 2) if runs else 2,
-                "rule": "Each scenario: a private scratch checkout on tmpfs created in a seeded file order (controls readdir order), start-state disk faults on generated files (deleted / 0-byte / prefix / content of another generated file / changed line + stale tail / extra file or directory inside generated directories / whole generated directory removed), 0-3 executions of the real generator killed at a file operation chosen inside the work that execution would perform (before the op, after truncate, after k bytes, after the op, or ENOSPC-style panic in the writer), then - faults have stopped - ONE fault-free execution (in a third of the sampled scenarios addressed through a symlink or a path with a '..' component instead of the canonical path) that must exit 0 and leave a tree byte-identical to the reference tree R (R = one run from the unchanged working tree, itself required to equal the working tree and to be a fixed point). Non-trivial: at least one disk fault actually applied; distinct = distinct hashes of (crash outcomes, file-operation trace of the clean execution).",
+                "rule": "Each scenario: a private scratch checkout on tmpfs created in a seeded file order (controls readdir order), start-state disk faults on generated files (deleted / 0-byte / prefix / content of another generated file / changed line + stale tail / extra file or directory inside generated directories / whole generated directory removed), 0-3 executions of the real generator killed at a file operation chosen inside the work that execution would perform (before the op, after truncate, after k bytes, after the op, or ENOSPC-style panic in the writer), then - faults have stopped - ONE fault-free execution (in a third of the sampled scenarios addressed through a symlink or a path with a '..' component instead of the canonical path; in a quarter with WOWM_WIRESHARK pointing at a dissector checkout) that must exit 0 and leave a tree byte-identical to the reference tree R (R = one run from the unchanged working tree, itself required to equal the working tree and to be a fixed point). Non-trivial: at least one disk fault actually applied; distinct = distinct hashes of (crash outcomes, file-operation trace of the clean execution).",
                 "samples": samples or [{"note": "no scenario executed: static obligations failed", "findings": c.findings[:3]}],
                 "runs_per_hour": int(runs / wall * 3600) if wall > 0 else 0,
                 "simulated_time_ticks": counters.get("file_ops_in_clean_executions", 0),
